@@ -496,6 +496,11 @@ pub fn c04(ctx: &mut Ctx) {
                 if let Some((op, _)) = r { ctx.case(op, format!("indent({}, {:?})", show(&t), p)); }
                 let r = quiet(|| op_dedent(&t)); check(ctx, format!("dedent({})", show(&t)), r.is_none());
                 if let Some((op, _)) = r { ctx.case(op, format!("dedent({})", show(&t))); }
+                // indented blocks with blanks that share UTF-8 lead bytes (byte-wise margins slice
+                // inside a character)
+                let mt = crate::props_a::margin_text(&mut ctx.rng);
+                let r = quiet(|| op_dedent(&mt)); check(ctx, format!("dedent({})", show(&mt)), r.is_none());
+                if let Some((op, _)) = r { ctx.case(op, format!("dedent({})", show(&mt))); }
                 let r = quiet(|| op_dw(&t)); check(ctx, format!("display_width({})", show(&t)), r.is_none());
                 if let Some(op) = r { ctx.case(op, format!("display_width({})", show(&t))); }
             }
